@@ -6,10 +6,11 @@ scale) and return identical synthetic data, conforming to the input's original d
 """
 import numpy as np
 
-from .. import mechrun, privacy
+from .. import gen, mechrun, privacy
 
 ID = 'C06'
-RULE = ('as C05: mechanism x dataset x parameters x injected outcome sequence x 3 neighbours; unit = one (D, D\') replayed pair; '
+RULE = ('as C05: mechanism x dataset x parameters x injected outcome sequence x (3 neighbours + 2 datasets many records away, reachable by a chain of neighbours: '
+        'columns permuted independently, resampled, all records equal, half, double); unit = one (D, D\') replayed pair; '
         'distinct = content hash of the case; non-trivial = the mechanism produced output')
 ANCHORS = ['MST', 'measure', 'compress_domain', 'transform_data', 'reverse_data', 'select', 'AIM.run', 'mwem_pgm', 'adagrid',
            'GraphicalModel.synthetic_data']
@@ -23,8 +24,35 @@ PLAN = {
 }
 
 
+def distant(rng, shape, rows, bounded):
+    """Datasets many records away from D.  The property quantifies over neighbouring pairs fed the same outcomes, so it
+    holds along every chain of neighbours and hence between D and any dataset the adjacency notion can reach: any
+    dataset at all for add/remove adjacency, any dataset of the same size for replace-one.  A side channel that moves
+    a branch by less than one record's worth (a threshold on an un-noised statistic) shows between far-apart datasets
+    on almost every run, while between neighbours only when the statistic happens to sit on the threshold."""
+    N, d = rows.shape
+    out = []
+    same_size = ['permute_columns', 'resample', 'point']
+    chosen = [same_size[i] for i in rng.permutation(3)[:2]] if bounded else [gen.pick(rng, same_size), gen.pick(rng, ['half', 'double'])]
+    for kind in chosen:
+        if kind == 'permute_columns':      # same one-way marginals, different joint
+            r2 = np.array([rows[rng.permutation(N), j] for j in range(d)]).T.reshape(N, d)
+        elif kind == 'resample':
+            r2 = np.array([rng.randint(s, size=N) for s in shape]).T.reshape(N, d)
+        elif kind == 'point':
+            r2 = np.tile(np.array([int(rng.randint(s)) for s in shape]), (N, 1))
+        elif kind == 'half':
+            r2 = rows[rng.permutation(N)[:max(1, N // 2)]]
+        else:
+            r2 = np.vstack([rows, np.array([rng.randint(s, size=N) for s in shape]).T.reshape(N, d)])
+        out.append(('distant_' + kind, r2.astype(int)))
+    return out
+
+
 def gen_case(rng, tier, idx):
-    return mechrun.pair_case(rng, tier, idx + 7)
+    case = mechrun.pair_case(rng, tier, idx + 7)
+    case['neighbours'] = list(case['neighbours']) + distant(rng, case['shape'], case['rows'], case['cfg']['bounded'])
+    return case
 
 
 def describe(case):
@@ -85,5 +113,6 @@ TECHNIQUE = 'runtime monitoring (relational): record/replay paired executions on
 LEVEL_TEXT = ('Held on the pairs observed: fed identical released values and selections, the run on the neighbouring dataset performs '
               'the same sequence of releases with the same noise scales and the same selections over the same number of candidates, '
               'and returns bit-identical synthetic data that conforms to the original domain, for all four mechanisms over the '
-              'driven parameter settings, outcome injections and neighbours.')
+              'driven parameter settings, outcome injections and neighbours, and likewise on datasets many records away (which a chain of '
+              'neighbours reaches, so the property covers them; they expose thresholds on un-noised statistics that neighbours straddle only rarely).')
 LEVEL_NOTE = 'A data dependence that changes neither the event skeleton nor the output on the driven pairs is invisible to this monitor.'
